@@ -329,3 +329,27 @@ Proof.
   cbv zeta in Hok. rewrite <- Htypes' in Hok. fold off in Hok.
   rewrite Forall_forall in Hok. specialize (Hok d Hin). rewrite Hoff in Hok. rewrite Hok. reflexivity.
 Qed.
+
+(* ------------------------------------------------------------------ a unit among others (DESIGN 4.4 T7) *)
+(* the j-th unit of a section of units with mixed parameters: found by iter_CUs / iter_TUs at the running sum of
+   the sizes (iter_CUs_exact), its table loads, and its entries are exactly the expected ones at their
+   section offsets *)
+Theorem section_unit_exact (sec abbrev_sec : list Z) (before : list unit) (u : unit) (after : list unit) (in_info : bool) :
+  sec = encode_section (before ++ u :: after) ->
+  unit_wf u = true -> table_at abbrev_sec u ->
+  let off := zlen (encode_section before) in
+  let M := expect_munit u sec off in
+  unit_sibs_ok u in_info sec off = true ->
+  open_unit abbrev_sec sec (expect_unit_ctx u off) = Ok M /\
+  Forall (fun x => get_die M (x_off x) = Ok x)
+         (expect_dies (u_cfg u) (t_decls (u_table u)) (unit_entries u) (off + header_size u)) /\
+  iter_DIEs M = Ok (expect_dies (u_cfg u) (t_decls (u_table u)) (unit_entries u) (off + header_size u)).
+Proof.
+  intros Hsec Hwf Htab off M Hs.
+  assert (Hsec' : sec = encode_section before ++ encode_unit u ++ encode_section after).
+  { rewrite Hsec, encode_section_app, encode_section_cons. reflexivity. }
+  split; [apply unit_abbrevs_exact; assumption|].
+  unfold M. rewrite Hsec' in *. split.
+  - apply unit_entries_exact. exact Hwf.
+  - apply iter_DIEs_exact with (in_info := in_info); assumption.
+Qed.
